@@ -406,7 +406,7 @@ package parquet
 //@   invariant freshOrNil(out) && freshOrNil(data) && (rfault ==> old(rfault))
 //@   invariant[C04] 0 <= iter$1 && iter$1 < #pageSizes && #data + boolBytes(HA(pageSizes), off(pageSizes), iter$1 + 1) == lastReadAll
 //@   invariant[C04] 0 <= iter$2 && iter$2 < #chunk && 0 < nVals && nVals <= 8 * (#chunk - (iter$2)) && nVals > 8 * (#chunk - (iter$2) - 1)
-//@   invariant[C04] 0 <= j && j <= m && m <= 8 && m <= nVals && (m == nVals || m == 8) && #out + nVals - j == sumN(HA(pageSizes), off(pageSizes), iter$1 + 1)
+//@   invariant[C04] 0 <= iter && iter <= m && m <= 8 && m <= nVals && (m == nVals || m == 8) && #out + nVals - iter == sumN(HA(pageSizes), off(pageSizes), iter$1 + 1)
 
 //@ func (*Metadata).Pages
 //@   requires m != nil
